@@ -51,11 +51,12 @@ def alt_pool(rng):
         'numbc': {'type': 'numeric_bytecode', 'bytecode': {'size': 5, 'min': 0, 'max': 15}},
         'adr': {'type': 'address', 'argument': {'size': 16, 'byte_align': True}, 'bytecode': bc()},
         'curly': {'type': 'relative_address', 'use_curly_braces': True, 'argument': {'size': 8, 'byte_align': True}, 'bytecode': bc()},
+        'rel': {'type': 'relative_address', 'argument': {'size': 8, 'byte_align': True}, 'bytecode': bc()},
     }
     return pool
 
 
-EXPR_LIKE = ('num', 'numbc', 'adr')
+EXPR_LIKE = ('num', 'numbc', 'adr', 'rel')
 
 
 def operand_texts(rng):
@@ -171,7 +172,8 @@ class C13(core.Check):
         'amb:key-vs-label', 'amb:register-vs-numeric', 'amb:indexed-vs-label-expression', 'reject:register-in-numeric-position',
         'reject:register-inside-expression', 'reject:no-variant-takes-count', 'mnemonic:upper', 'mnemonic:mixed',
         'chosen:variant>=2', 'chosen:specific', 'expect:ACCEPT', 'expect:REJECT',
-        'later-candidate-after-nonaccepting-earlier', 'amb:disallowed-pair-mirrored-is-allowed', 'amb:two-specific-entries-accept']}
+        'later-candidate-after-nonaccepting-earlier', 'amb:disallowed-pair-mirrored-is-allowed', 'amb:two-specific-entries-accept',
+        'amb:key-vs-relative-address']}
 
     def gen_isa(self, rng):
         pool = alt_pool(rng)
@@ -372,6 +374,13 @@ class C13(core.Check):
                 for o, op in zip(operands, stmt['ops']):
                     if o['cls'] == 'word' and op.get('key') and o['e'] is not None:
                         tags.add('amb:key-vs-label')
+                    if o['cls'] == 'word' and op.get('key') and stmt['spec'] is None:
+                        for v_ in encode.variants_of(isa, 'amb'):
+                            for sn in ((v_.get('operands') or {}).get('operand_sets') or {}).get('list', []):
+                                ov_ = isa['operand_sets'][sn]['operand_values']
+                                if op['id'] in ov_ and any(c_['type'] == 'relative_address' and not c_.get('use_curly_braces')
+                                                           for c_ in ov_.values()):
+                                    tags.add('amb:key-vs-relative-address')
                     if o['cls'] in ('indoff', 'ind', 'indnum') and stmt['spec'] is None:
                         tags.add('amb:bracketed-vs-numeric-set')
                     if o['cls'] == 'reg' and stmt['spec'] is None:
